@@ -372,3 +372,6 @@ def run(rep, facts, tier):
     rep.add('C17.R4', 'C17.R4:token_location:scan-walks-characters', bool(chars) and not other,
             'line/column loop is driven by %s' % short(chars[0]) if chars and not other else
             'the line/column scan is driven by %s: columns are not counted in characters' % [short(d) for d in other] or 'no loop', tl.name, tl.j['span'])
+
+# as-built addendum
+EXPLANATION += ' As built (DESIGN 9.2): R1 also: no map entry is rewritten when an instruction is patched. R2 also: source texts live as long as code compiled from them; the source of a token is found by buffer identity; a buffer is registered once; the registry cut at the close of a meta block spares buffers a pending input still reads. R3 also: every drive function forgets the previous failure before its first step. R4 also: line/column are plain counts.'
